@@ -674,8 +674,11 @@ func (p *Transformer) transformCallbackFunc(m llvm.Module, fn llvm.Value) (wrap 
 	for _, ti := range info.Params {
 		switch ti.Kind {
 		default:
+			nparams = append(nparams, params[index])
 		case AttrVoid:
-			// none
+			// not part of the C signature: pass the zero value, consume no wrapper parameter
+			nparams = append(nparams, llvm.ConstNull(ti.Type))
+			continue
 		case AttrPointer:
 			nparams = append(nparams, b.CreateLoad(ti.Type, params[index], ""))
 		case AttrWidthType:
